@@ -551,16 +551,16 @@ def classify(mode, d, bang, stage, models, verdicts, plain=False, path=None):
             return "C01-Kcdata-section", "Parser::parseModel ends with an uncaught std::logic_error: the document holds a CDATA section"
         if v.startswith("CRASH") and "entity-ref-in-content" in feats and (plain or "traverseTreeFor" in frames):
             return "C01-Kentity-reference", "Parser::parseModel dies (%s): a declared entity is referenced in element content" % top
-    if stage in ("R", "FR") and v.startswith("CRASH") and kind == "stack-overflow" \
-            and any(longest_ws_run(ms) >= 8000 for m in models for ms in m.get("math", [])):
-        return "C01-Kregex-whitespace-run", "Printer::printModel exhausts the stack: a math string holds a run of %d white-space characters" % max(
-            longest_ws_run(ms) for m in models for ms in m.get("math", []))
     mine = [m for m in models if m["label"].startswith(mode)] or models
     ana, pw = verdicts.get(mode, (set(), set()))
     # K3: a recursive unit reducer on a cyclic units graph -> stack exhaustion
     if ((v.startswith("CRASH") and kind == "stack-overflow") or v.startswith("TIMEOUT")) and stage in K3_STAGES and units_cycle(mine):
         return "C01-K3-units-cycle", "stage %s: %s on a cyclic units graph" % (
             stage, "no return within the time limit" if v.startswith("TIMEOUT") else "stack exhaustion (%s)" % top)
+    if stage in ("R", "FR") and v.startswith("CRASH") and kind == "stack-overflow" \
+            and any(longest_ws_run(ms) >= 8000 for m in models for ms in m.get("math", [])):
+        return "C01-Kregex-whitespace-run", "Printer::printModel exhausts the stack: a math string holds a run of %d white-space characters" % max(
+            longest_ws_run(ms) for m in models for ms in m.get("math", []))
     # flattening creates the cycle: an imported units renamed to a name its definition refers to
     if ((v.startswith("CRASH") and kind == "stack-overflow") or v.startswith("TIMEOUT")) and stage in ("F", "FR", "FV", "FA", "FGc", "FGp") \
             and import_capture_cycle([m for m in mine if not m["label"].endswith("lib")], [m for m in models if m["label"].endswith("lib")]):
